@@ -53,24 +53,32 @@ def container_exports():
 
 
 def leaf_imports():
-    """ScaledInteger/BLOBType.import_value: scale*int(value) / b64decode(value), any exception -> WrongTypeError"""
+    """ScaledInteger.import_value: integers (or whole-number floats) only, scale*value; BLOBType.import_value:
+    strict b64decode; any exception -> WrongTypeError"""
     ok = True
-    for cname, expr in (('ScaledInteger', 'self.scale*int(value)'), ('BLOBType', 'b64decode(value)')):
+    for cname, expr, needs in (('ScaledInteger', 'self.scale*value',
+                                ['ifisinstance(value,float)andvalue.is_integer():\nvalue=int(value)',
+                                 'ifnotisinstance(value,int):']),
+                               ('BLOBType', 'b64decode(value,validate=True)', [])):
         f = find_func(_cls(cname), 'import_value')
         tries = walk_type(f, ast.Try)
         ok = ok and len(tries) == 1 and len(tries[0].handlers) == 1 \
             and src(tries[0].handlers[0].type) == 'Exception' \
-            and [src(s).replace(' ', '') for s in tries[0].body] == ['return' + expr] \
+            and src(tries[0].body[-1]).replace(' ', '') == 'return' + expr \
+            and len(tries[0].body) == len(needs) + 1 \
+            and all(src(st).replace(' ', '').startswith(n) for st, n in zip(tries[0].body, needs)) \
             and 'raiseWrongTypeError' in src(tries[0].handlers[0]).replace(' ', '')
     return 'bool', cbool(ok)
 
 
 def container_imports():
+    """ArrayOf/TupleOf.import_value: check_type(value), then element by element; StructOf: check_type(value, True)"""
     a = _body('ArrayOf', 'import_value')
     t = _body('TupleOf', 'import_value')
     s = _body('StructOf', 'import_value')
-    ok = (a == ['returntuple((self.members.import_value(elem)foreleminvalue))']
-          and t == ['returntuple((sub.import_value(elem)forsub,eleminzip(self.members,value)))']
+    ok = (a == ['self.check_type(value)', 'returntuple((self.members.import_value(elem)foreleminvalue))']
+          and t == ['self.check_type(value)',
+                    'returntuple((sub.import_value(elem)forsub,eleminzip(self.members,value)))']
           and s == ['self.check_type(value,True)',
                     'return{str(k):self.members[k].import_value(v)fork,vinvalue.items()}'])
     return 'bool', cbool(ok)
